@@ -70,6 +70,8 @@ type Report struct {
 	Callbacks   int64
 	Panics      int64
 	Extra       map[string]any
+	StateSet    map[uint64]struct{} `json:"-"`
+	NTSet       map[uint64]struct{} `json:"-"`
 }
 
 // Options control an exploration.
@@ -79,6 +81,8 @@ type Options struct {
 	MaxFound  int       // stop collecting after this many distinct signatures (default 20)
 	Signature func(f *Found) string
 	Progress  bool
+	Shard     int // this process handles depth-2 subtrees k with k % NShard == Shard
+	NShard    int
 }
 
 type explorer struct {
@@ -110,10 +114,16 @@ func hash64(s string) uint64 {
 	return h.Sum64()
 }
 
+// StepHook, if set, is installed as the world's OnStep callback (single-threaded sub modes only).
+var StepHook func(step int)
+
 // RunHistory executes prelude+hist on a fresh world. Oracles are evaluated after the last
 // op only (every proper prefix is itself a node of the search and was checked there).
 func RunHistory(sc *Scenario, cfg drv.Config, prelude, hist []model.Op) (*drv.World, *drv.Violation) {
 	x := drv.NewWorld(cfg, sc.Filters, sc.Obs, sc.Slots, sc.Oracle)
+	if StepHook != nil {
+		x.OnStep = StepHook
+	}
 	all := len(prelude) + len(hist)
 	k := 0
 	step := func(op model.Op) *drv.Violation {
@@ -283,6 +293,15 @@ func Explore(sc *Scenario, opt Options) *Report {
 					taskPad = append(taskPad, pad1)
 				}
 			}
+			if opt.NShard > 1 && opt.Shard != 0 {
+				// the two expansion levels are executed by every shard; count them once (shard 0)
+				e.hist.Store(0)
+				e.trans.Store(0)
+				e.queries.Store(0)
+				e.cbs.Store(0)
+				e.panics.Store(0)
+				st0, nt0 = map[uint64]struct{}{}, map[uint64]struct{}{}
+			}
 			var wg sync.WaitGroup
 			var next atomic.Int64
 			sts := make([]map[uint64]struct{}, opt.Workers)
@@ -298,6 +317,9 @@ func Explore(sc *Scenario, opt Options) *Report {
 						k := int(next.Add(1)) - 1
 						if k >= len(tasks) || e.timedOut.Load() {
 							return
+						}
+						if opt.NShard > 1 && k%opt.NShard != opt.Shard {
+							continue
 						}
 						hist := make([]model.Op, 2, sc.Depth+2)
 						copy(hist, tasks[k])
@@ -348,6 +370,7 @@ func Explore(sc *Scenario, opt Options) *Report {
 	}
 	rep.States = int64(len(allStates))
 	rep.NonTrivial = int64(len(allNT))
+	rep.StateSet, rep.NTSet = allStates, allNT
 	rep.MaxDepth = sc.Depth
 	for _, f := range found {
 		rep.Found = append(rep.Found, *f)
